@@ -141,7 +141,7 @@ func govcRunQuery(sql string) (map[string]float64, error) {
 		}
 		s.Emit(c)
 	}
-	deadline := time.Now().Add(3 * time.Second)
+	deadline := time.Now().Add(15 * time.Second)
 	for time.Now().Before(deadline) {
 		mu.Lock()
 		n := len(got)
@@ -245,7 +245,7 @@ func govcRunHaving(sql string, want int) (map[string]map[string]any, error) {
 		}
 		s.Emit(c)
 	}
-	deadline := time.Now().Add(2 * time.Second)
+	deadline := time.Now().Add(15 * time.Second)
 	for time.Now().Before(deadline) {
 		mu.Lock()
 		n := len(got)
